@@ -1,10 +1,19 @@
-import JL.Props.C03
+import JL.Lemmas.C01
 /-!
 # C01 — evaluation is total: a value or an error, never a panic, abort or hang
 
 Termination needs no theorem: every function of the model is accepted by Lean as structurally recursive on
 the rule (or on the data for `to_string`, equality, lookup), without fuel. What is proved here is that the
-*panic* outcome — the model's image of `items[i]` out of bounds and of `unwrap` on `None` — is unreachable.
+*panic* outcome — the model's image of `items[i]` out of bounds and of `unwrap` on `None` — is unreachable:
+
+* `index_safe_eager`, `index_safe_data`: over the tables REGENERATED from `src/op/mod.rs`, every operator's
+  positional accesses are in bounds for every operand count its arity descriptor accepts (an arity edit in
+  `mod.rs` that admits a shorter list makes these fail to check);
+* `run_noPanic`: a rule that passed the parse phase never panics, on any data (all depths, all values);
+* `apply_total`, `apply_outcome`: `apply` yields a value or an error, with no hypothesis at all;
+* `toNumberValue_wf`, `numResult_wf`: the numbers built by `to_number_value` are well-formed JSON numbers.
+
+The proofs are in `JL/Lemmas/C01.lean`.
 -/
 namespace JL.Props.C01
 open JL Json M
@@ -21,5 +30,144 @@ theorem compare_noPanic (f : Json → Json → Bool) (items : List Json) (h : 2 
 /-- a rule that fails the parse phase is an error value, with no log line -/
 theorem apply_parse_error (r d : Json) (h : check r = false) : apply r d = ⟨[], .err⟩ := by
   unfold apply; rw [h]; rfl
+
+/-! ## positional access is safe because (and only because) the arity was validated -/
+
+/-- **Index safety, eager table.** For every entry of the regenerated eager table and every operand list
+whose length the entry's descriptor accepts, the implementation's `items[i]` are all in bounds. -/
+theorem index_safe_eager : ∀ e ∈ Tables.eager, ∀ items : List Json,
+    e.arity.isValidLen items.length = true → NoPanic (execEager e.key items) :=
+  Lemmas.C01.index_safe_eager
+
+/-- **Index safety, data table** (`var`, `missing`, `missing_some`). -/
+theorem index_safe_data : ∀ e ∈ Tables.data, ∀ (d : Json) (items : List Json),
+    e.arity.isValidLen items.length = true → NoPanic (execData e.key d items) :=
+  Lemmas.C01.index_safe_data
+
+/-- **Index safety** (the name used by DESIGN.md and `audits/panic_sites.json`): both tables whose operators
+index their evaluated operand vector. (Lazy operators index the raw operand list; their case is inside
+`run_noPanic`, which derives the list shape from the lazy table's arities.) -/
+theorem index_safe :
+    (∀ e ∈ Tables.eager, ∀ items : List Json,
+      e.arity.isValidLen items.length = true → NoPanic (execEager e.key items)) ∧
+    (∀ e ∈ Tables.data, ∀ (d : Json) (items : List Json),
+      e.arity.isValidLen items.length = true → NoPanic (execData e.key d items)) :=
+  ⟨index_safe_eager, index_safe_data⟩
+
+/-- the hypothesis of `index_safe_*` is needed: with one operand less than the table allows, the positional
+access of the model does go out of bounds (so the theorems above are not vacuous about `panic`) -/
+example : (execEager "==".toList [.null]).out = .panic := by decide +kernel
+example : (execEager "substr".toList [.str "a".toList]).out = .panic := by decide +kernel
+example : (execData "missing_some".toList .null [.null]).out = .panic := by decide +kernel
+/-- and it is met by real operand lists -/
+example : ∃ e ∈ Tables.eager, e.key = "substr".toList ∧ e.arity.isValidLen [Json.null, Json.null, Json.null].length = true :=
+  by decide
+
+/-! ## the data loops of the lazy operators: no panic of their own -/
+
+theorem mapData_noPanic {f : Json → M Json} (hf : ∀ x, NoPanic (f x)) (xs : List Json) : NoPanic (mapData f xs) :=
+  Lemmas.C01.mapData_noPanic hf xs
+theorem filterData_noPanic {f : Json → M Json} (hf : ∀ x, NoPanic (f x)) (xs : List Json) : NoPanic (filterData f xs) :=
+  Lemmas.C01.filterData_noPanic hf xs
+theorem reduceData_noPanic {f : Json → M Json} (hf : ∀ x, NoPanic (f x)) (xs : List Json) (acc : Json) :
+    NoPanic (reduceData f xs acc) :=
+  Lemmas.C01.reduceData_noPanic hf xs acc
+theorem quantData_noPanic (isAll : Bool) {p : Json → M Json} (hp : ∀ x, NoPanic (p x)) (xs : List Json) (res : Bool) :
+    NoPanic (quantData isAll p xs res) :=
+  Lemmas.C01.quantData_noPanic isAll hp xs res
+theorem quantValue_noPanic (isAll : Bool) (coll : Json) (predOk : Bool) {p : Json → M Json}
+    (hp : predOk = true → ∀ x, NoPanic (p x)) : NoPanic (quantValue isAll coll predOk p) :=
+  Lemmas.C01.quantValue_noPanic isAll coll predOk hp
+
+/-! ## the main theorem -/
+
+/-- **No panic.** A rule accepted by the parse phase (`Parsed::from_value` succeeded) evaluates, on every
+data value, to a value or an error value: no positional access out of bounds, no `unwrap` of `None`,
+at any nesting depth and for any operand values. -/
+theorem run_noPanic (r d : Json) (h : check r = true) : NoPanic (run r d) :=
+  Lemmas.C01.run_noPanic r d h
+
+/-- operands of an eager/data operation -/
+theorem runList_noPanic (xs : List Json) (d : Json) (h : checkList xs = true) : NoPanic (runList xs d) :=
+  Lemmas.C01.runList_noPanic xs (fun x _ hx d => run_noPanic x d hx) h d
+
+/-- the folds of the lazy operators parse each operand just before evaluating it: no hypothesis needed -/
+theorem runIf_noPanic (xs : List Json) (i : Nat) (st : Json × Bool × Bool) (d : Json) : NoPanic (runIf xs i st d) :=
+  Lemmas.C01.runIf_noPanic xs (fun x _ hx d => run_noPanic x d hx) i st d
+
+theorem runOrAnd_noPanic (isOr : Bool) (xs : List Json) (st : OrState) (d : Json) : NoPanic (runOrAnd isOr xs st d) :=
+  Lemmas.C01.runOrAnd_noPanic isOr xs (fun x _ hx d => run_noPanic x d hx) st d
+
+theorem runQuantLit_noPanic (isAll : Bool) {p : Json → M Json} (hp : ∀ x, NoPanic (p x)) (xs : List Json)
+    (d : Json) (res : Bool) : NoPanic (runQuantLit isAll xs p d res) :=
+  Lemmas.C01.runQuantLit_noPanic isAll hp xs (fun x _ hx d => run_noPanic x d hx) d res
+
+/-- **Totality of `apply`**, for every rule and every data, without any hypothesis (`apply` parses first). -/
+theorem apply_total (r d : Json) : NoPanic (apply r d) := by
+  unfold apply
+  split
+  · rename_i h; exact run_noPanic r d h
+  · exact noPanic_err
+
+/-- **`apply` returns `Ok(v)` or `Err(e)`.** -/
+theorem apply_outcome (r d : Json) : (∃ v, (apply r d).out = .ok v) ∨ (apply r d).out = .err := by
+  have h := apply_total r d
+  unfold NoPanic at h
+  cases ho : (apply r d).out with
+  | ok v => exact Or.inl ⟨v, rfl⟩
+  | err => exact Or.inr rfl
+  | panic => exact absurd ho h
+
+/-! non-vacuity: concrete rules meet `check r = true`, with every kind of operator, and evaluate -/
+example : check (.obj [("+".toList, .arr [.num (.pos 1), .obj [("var".toList, .str "a".toList)]])]) = true := by
+  decide +kernel
+example : check (.obj [("map".toList, .arr [.obj [("var".toList, .str "a".toList)],
+    .obj [("substr".toList, .arr [.obj [("var".toList, .str "".toList)], .num (.neg 1)])]])]) = true := by
+  decide +kernel
+example : (apply (.obj [("map".toList, .arr [.obj [("var".toList, .str "a".toList)],
+      .obj [("substr".toList, .arr [.obj [("var".toList, .str "".toList)], .num (.neg 1)])]])])
+    (.obj [("a".toList, .arr [.str "xyz".toList])])).out = .ok (.arr [.str "z".toList]) := by
+  decide +kernel
+/-- both disjuncts of `apply_outcome` occur -/
+example : (apply (.obj [("<".toList, .arr [.null])]) .null).out = .err := by decide +kernel
+example : (apply (.obj [("/".toList, .arr [.num (.pos 1), .num (.pos 0)])]) .null).out = .err := by decide +kernel
+/-- `check` is not trivially true -/
+example : check (.obj [("reduce".toList, .arr [.null, .null])]) = false := by decide +kernel
+
+/-! ## `result_wf` (stretch; partial): no ill-formed number is produced by the arithmetic operators
+
+Full statement (NOT proved): `∀ r d v, r.wf → d.wf → (apply r d).out = .ok v → v.wf`.
+Proved below: the part about `to_number_value` and the operators `+ * - /`. Missing for the full statement:
+`F64.rem` stays on the grid (for `%`), `max`/`min`/`var` return (parts of) their operands and so need the
+`wf` hypotheses threaded through `run`, the `reduce` context object has sorted keys, and the string
+operators build no numbers — a `run`-level induction of the same shape as `run_noPanic`. -/
+
+set_option exponentiation.threshold 2200 in
+/-- every double the model's rounding produces is on the binary64 grid (or infinite) -/
+theorem roundUnits_wf (neg : Bool) (num den : Nat) : F64.WF (F64.roundUnits neg num den) :=
+  Lemmas.C01.roundUnits_wf neg num den
+
+/-- `to_number_value` of a double on the grid is a well-formed JSON number: a `u64`, a negative `i64`, or a
+finite float (non-finite results are `Err`, never an invalid number) -/
+theorem toNumberValue_wf (x : F64) (hx : F64.WF x) (v : Json) (h : toNumberValue x = some v) : v.wf = true :=
+  Lemmas.C01.toNumberValue_wf x hx v h
+
+theorem numResult_wf (r : Option F64) (hr : ∀ x, r = some x → F64.WF x) (v : Json)
+    (h : (numResult r).out = .ok v) : v.wf = true :=
+  Lemmas.C01.numResult_wf r hr v h
+
+/-- `+ * - /` on ANY operand values (no well-formedness needed of them: the result went through the rounding
+function) and any operand count: a successful result is a well-formed value. -/
+theorem result_wf_partial (k : Str) (hk : k = "+".toList ∨ k = "*".toList ∨ k = "-".toList ∨ k = "/".toList)
+    (items : List Json) (v : Json) (h : (execEager k items).out = .ok v) : v.wf = true :=
+  Lemmas.C01.arith_result_wf k hk items v h
+
+/-! non-vacuity: the hypotheses are met, with an integral and a fractional result, and a non-finite one is `Err` -/
+set_option exponentiation.threshold 2200 in
+example : F64.WF (F64.fin false (3 * F64.S)) ∧ toNumberValue (F64.fin false (3 * F64.S)) = some (.num (.pos 3)) := by
+  decide +kernel
+example : (execEager "/".toList [.num (.pos 1), .num (.pos 4)]).out
+    = .ok (.num (.flt (F64.fin false (F64.S / 4)))) := by decide +kernel
+example : (execEager "/".toList [.num (.pos 1), .num (.pos 0)]).out = .err := by decide +kernel
 
 end JL.Props.C01
